@@ -37,8 +37,7 @@ ASSUMPTIONS = [
     'command methods return a fixed value valid for the result type; no poller is started (startModule is not called)',
     'omit_unchanged_within = 0 (every announceUpdate is delivered); one connection; single thread; time stamps are not compared',
     'datatypes restricted to double, int, scaled, bool, enum, string, fixed-length array of int, struct of leaves (+ the inherited '
-    'status tuple and pollinterval); payloads avoid the open C01 findings (non-lists for arrays, non-mappings for structs, '
-    'fractions/strings/non-finite numbers for scaled) - these are datatype defects listed under C01, not re-listed here',
+    'status tuple and pollinterval); datatype validation itself is the subject of C01 (its model FV.C01.Model is imported)',
     'C3 MRO, class qualname, datatype.default, int(str) are python runtime behaviour and enter the model as data; numeric '
     'properties of datatypes are read back from the run-time datatype objects',
     'description texts, the meaning property, node-level properties (equipment_id, firmware) and describe with a specifier are not modelled; '
@@ -185,8 +184,26 @@ def desc_of_obj(o):
     raise ValueError(f'datatype outside the modelled subset: {o!r}')
 
 
-def _gd(o):
-    return G.gal_dtype(desc_of_obj(o), o)
+class _NoClient:
+    """view of a datatype the client built from the report: the `client` mark of structs is not part of the datainfo"""
+    def __init__(self, o):
+        self._o = o
+
+    def __getattr__(self, name):
+        if name == 'client':
+            return False
+        v = getattr(self._o, name)
+        if name == 'members':
+            if isinstance(v, dict):
+                return {k: _NoClient(x) for k, x in v.items()}
+            if isinstance(v, (list, tuple)):
+                return [_NoClient(x) for x in v]
+            return _NoClient(v)
+        return v
+
+
+def _gd(o, described=False):
+    return G.gal_dtype(desc_of_obj(o), _NoClient(o) if described else o)
 
 
 def _exc_name(e):
@@ -381,10 +398,10 @@ def _canon_desc(desc):
             cdt = get_datatype(info)
             item = {'wire': str(w), 'group': ad.get('group'), 'vis': ad.get('visibility')}
             if info.get('type') == 'command':
-                item.update(kind='c', garg=_gd(cdt.argument) if cdt.argument is not None else None,
-                            gres=_gd(cdt.result) if cdt.result is not None else None)
+                item.update(kind='c', garg=_gd(cdt.argument, True) if cdt.argument is not None else None,
+                            gres=_gd(cdt.result, True) if cdt.result is not None else None)
             else:
-                item.update(kind='p', gd=_gd(cdt), unit=info.get('unit', ''), readonly=ad.get('readonly'),
+                item.update(kind='p', gd=_gd(cdt, True), unit=info.get('unit', ''), readonly=ad.get('readonly'),
                             has_constant='constant' in ad, constant=G.tag(ad['constant']) if 'constant' in ad else None)
             accs.append(item)
         mods.append({'name': mn, 'accs': accs, 'group': md.get('group'), 'vis': md.get('visibility'),
@@ -876,7 +893,7 @@ def payload(rng, d):
     if t == 'scaled':
         s = G.dec_float(d['scale'])
         k1, k2 = round(G.dec_float(d['min']) / s), round(G.dec_float(d['max']) / s)
-        return rng.choice([k1, k2, k1 - 1, k2 + 1, k1 - 2, k2 + 2, True, None, [k1], 2 ** 70])
+        return rng.choice([k1, k2, k1 - 1, k2 + 1, k1 - 2, k2 + 2, True, None, [k1], 2 ** 70, float(k1), k1 + 0.5, '5', math.nan, math.inf])
     if t == 'bool':
         return rng.choice([True, False, 0, 1, 2, -1, 1.0, 0.5, 'true', None, []])
     if t == 'enum':
@@ -891,7 +908,7 @@ def payload(rng, d):
         good = [wire_valid(rng, e) for _ in range(n)]
         bad = list(good)
         bad[rng.randrange(n)] = rng.choice([e['min'] - 1, e['max'] + 1, 0.5, 'x', None, [1]])
-        return rng.choice([good[:-1], good + [good[-1]], [], bad, bad, good + good])
+        return rng.choice([good[:-1], good + [good[-1]], [], bad, bad, good + good, None, 5, 'ab', {'a': 1}, tuple(good)])
     v = wire_valid(rng, d)
     rr = rng.random()
     names = [n for n, _ in d['members']]
@@ -906,7 +923,7 @@ def payload(rng, d):
         if v[k] is None:
             v[k] = 'bad'
     elif rr < 0.9:
-        return rng.choice([None, 5, True])
+        return rng.choice([None, 5, True, 'ab', [1], [], ''])
     else:
         v = {n: wire_valid(rng, dict(d['members'])[n]) for n in names}
     return v
